@@ -400,9 +400,9 @@ void finish_call_events(char const* caught)
 {
   for (auto& e : evs) {
     auto p = e.find(" UNKNOWN");
-    if (p != std::string::npos && e.compare(0, 6, "trace ") == 0) e = e.substr(0, p) + " " + caught;
+    if (p != std::string::npos && e.compare(0, 6, "trace ") == 0) e = e.substr(0, p) + " " + caught + e.substr(p + 8);
     auto q = e.find(" what:std");
-    if (q != std::string::npos && e.compare(0, 6, "trace ") == 0) e = e.substr(0, q) + " std";
+    if (q != std::string::npos && e.compare(0, 6, "trace ") == 0) e = e.substr(0, q) + " std" + e.substr(q + 9);
   }
 }
 
